@@ -132,11 +132,45 @@ pub fn probe_r7() -> SimCampaign {
     c
 }
 
+/// One client holding a plain subscription and a shared subscription on the SAME filter with
+/// different QoS (they read one log and park on the same waiters): repeated subscriptions of
+/// either must not change the other's QoS, and each keeps its own exact stream
+pub fn plain_and_shared_campaign() -> SimCampaign {
+    let mut c = main_campaign();
+    c.name = "plain_and_shared";
+    c.gen.max_clients = 3;
+    c.gen.w_shared_sub = 6;
+    c.gen.w_subscribe = 10;
+    c.gen.w_burst = 0;
+    c.gen.w_unsubscribe = 0;
+    c.gen.p_alias = 0;
+    c.gen.p_sub_id = 0;
+    c.gen.topics = ["a", "a/b", "b", "b/c"].iter().map(|s| s.to_string()).collect();
+    c.gen.filters = ["a/#", "b/#"].iter().map(|s| s.to_string()).collect();
+    c.flags.shared = true;
+    // plain subscriptions are QoS 1, shared ones QoS 0: the broker forwards with the
+    // subscription's QoS, so a forward names the kind of subscription it came through
+    c.shape = Some(|mut h: Hist| {
+        for op in h.ops.iter_mut() {
+            if let Op::Subscribe { filters, .. } = op {
+                for (f, q) in filters.iter_mut() {
+                    *q = if f.starts_with("$share/") { 0 } else { 1 };
+                }
+            }
+        }
+        h
+    });
+    c.quick = 3000;
+    c.thorough = 60000;
+    c.nontrivial = |s, _| if s.shared_forwards > 0 && s.forwards > s.shared_forwards { Some("plain+shared".into()) } else { None };
+    c
+}
+
 pub fn plan(_tier: Tier) -> Plan {
     Plan {
-        campaigns: vec![Box::new(main_campaign()), Box::new(probe_r6()), Box::new(probe_r7()), Box::new(crate::fullstack::flow::Flow)],
+        campaigns: vec![Box::new(main_campaign()), Box::new(plain_and_shared_campaign()), Box::new(probe_r6()), Box::new(probe_r7()), Box::new(crate::fullstack::flow::Flow)],
         enumerators: vec![],
-        rule: "Histories of connect/disconnect/link-failure/reconnect (clean sessions)/subscribe/unsubscribe/publish(QoS0-2, bursts up to 260)/release/ack/drain/turn/settle ops by 2-5 well-behaved clients against the real router stepped turn by turn, over generated router configurations (segment size/count, outgoing batch size). Non-trivial: a client holds >=2 subscriptions on overlapping filters, a publish matches >=2 of them, at least one forward was observed and at least one of {inflight-full pause, busy/Unschedule pause, park-then-wake} occurred; distinct by hash of the whole history. The delivery clauses are also decided end to end through the real link code by the campaign shared with C09 — ".to_string() + crate::fullstack::flow::FLOW_RULE,
+        rule: "Histories of connect/disconnect/link-failure/reconnect (clean sessions)/subscribe/unsubscribe/publish(QoS0-2, bursts up to 260)/release/ack/drain/turn/settle ops by 2-5 well-behaved clients against the real router stepped turn by turn, over generated router configurations (segment size/count, outgoing batch size). Non-trivial: a client holds >=2 subscriptions on overlapping filters, a publish matches >=2 of them, at least one forward was observed and at least one of {inflight-full pause, busy/Unschedule pause, park-then-wake} occurred; distinct by hash of the whole history. Campaign plain_and_shared: one client holds a plain (QoS 1) and a shared (QoS 0) subscription on the same filter and repeats either; each keeps its own exact stream and QoS. The delivery clauses are also decided end to end through the real link code by the campaign shared with C09 — ".to_string() + crate::fullstack::flow::FLOW_RULE,
         assumptions: vec![
             "The router is single-threaded; links interact with it only through the event channel and two mutex-protected buffers, so every real schedule is a partition of the event sequence into turns plus drain points — which is what the generator draws".into(),
             "Completeness is asserted only for streams whose unread backlog stayed below (segment_count-1)*segment_size bytes (retention-relaxed streams keep the safety clauses)".into(),
